@@ -60,6 +60,21 @@ fn main() {
             let prefix: Vec<String> = lines.collect();
             dfs(&new_line, mk, depth, &prefix, &mut out, &mut stats);
         }
+        Some("randomfrom") => {
+            // drive randomfrom <seed> <count> <len>   with `new ...` and the prefix ops on stdin
+            let seed: u64 = args[2].parse().expect("seed");
+            let count: usize = args[3].parse().expect("count");
+            let len: usize = args[4].parse().expect("len");
+            let mut input = String::new();
+            std::io::stdin().read_to_string(&mut input).unwrap();
+            let mut lines = input.lines().map(|l| l.trim().to_string()).filter(|l| !l.is_empty());
+            let new_line = lines.next().expect("new line");
+            let prim = new_line.split_whitespace().nth(1).unwrap_or("").to_string();
+            let mk = maker(&prim).expect("unknown primitive");
+            let prefix: Vec<String> = lines.collect();
+            let mut rng = Rng(seed ^ 0x5151_1515_9999_0001);
+            random_from(&new_line, mk, &prefix, count, len, &mut rng, &mut out, &mut stats);
+        }
         Some("random") => {
             let prim = args[2].clone();
             let seed: u64 = args[3].parse().expect("seed");
